@@ -239,7 +239,7 @@ func (in *instr) rewrite() ([]byte, error) {
 		case *ast.SelectorExpr:
 			if in.isPkgIdent(n.X, "sync") {
 				switch n.Sel.Name {
-				case "Mutex", "RWMutex", "Map":
+				case "Mutex", "RWMutex", "Map", "WaitGroup", "Once":
 					in.needVrt = true
 					in.stats["sync_types"]++
 					c.Replace(vrtSel(n.Sel.Name))
